@@ -12,7 +12,7 @@ func init() {
 func vC07Text() (string, int) {
 	n := 1 + vChoice("n", vParam("C07.octets", 2))
 	x := vBytes("x", n)
-	ctx := vChoice("ctx", 13)
+	ctx := vChoice("ctx", 16)
 	ascii := func() {
 		// contexts whose token is upper-cased for keyword lookup: ASCII only (non-ASCII input sends strings.ToUpper
 		// through the Unicode tables); quoted strings, comments and RDATA take all 256 values
@@ -80,6 +80,15 @@ func vC07Text() (string, int) {
 	case 11: // a token that crosses the lexer's buffer size
 		ascii()
 		text = strings.Repeat("a", 2040) + xs + strings.Repeat("b", 20) + " 60 IN A 192.0.2.1\n" + good
+	case 12: // a comment longer than the lexer's buffer inside parentheses, then more tokens and another comment
+		contained("\n")
+		text = "a 60 IN MX ( 10 ; " + strings.Repeat("c", 1100) + xs + "\n m ; second" + xs + "\n)\n" + good
+	case 13: // ... and the text ending right after the next token
+		contained("\n")
+		text = "a 60 IN MX ( 10 ; " + strings.Repeat("c", 600) + xs + "\n m "
+	case 14: // a quoted string longer than the lexer's buffer
+		contained("\"\\\n")
+		text = "a 60 IN TXT \"" + strings.Repeat("q", 2040) + xs + strings.Repeat("r", 20) + "\"\n" + good
 	default: // the text ends inside the symbolic part (unterminated quote / parenthesis / escape)
 		contained("\"\\\n")
 		text = "a 60 IN TXT ( \"q" + xs
@@ -180,7 +189,9 @@ func H_C07_limits() {
 			rng string
 			ok  bool
 		}{{"0-65535", true}, {"0-65536", false}, {"0-131071/2", true}, {"0-131072/2", false}, {"5-4", false}, {"1-1/0", false},
-			{"9223372036854775807-9223372036854775807", true}, {"0-9223372036854775807", false}, {"-1-2", false}, {"1-2/-1", false}}
+			{"9223372036854775807-9223372036854775807", true}, {"0-9223372036854775807", false}, {"-1-2", false}, {"1-2/-1", false},
+			// one step only: start+step overflows int64
+			{"9223372036854775806-9223372036854775807/2", true}, {"1-9223372036854775807/9223372036854775807", true}, {"7-7", true}}
 		c := cases[vChoice("range", len(cases))]
 		l := vLower("l")
 		zp := NewZoneParser(strings.NewReader("$GENERATE "+c.rng+" "+string([]byte{l})+" 60 IN A 192.0.2.1\n"), "ex.", "zone")
@@ -189,6 +200,16 @@ func H_C07_limits() {
 		vObserve("range", ok, zp.Err())
 		if c.ok {
 			vAssert(ok && rr != nil && zp.Err() == nil, "range-within-65536-steps-is-accepted")
+			if c.rng != "0-65535" && c.rng != "0-131071/2" { // single-step ranges: exactly one record, then the end
+				n := 1
+				for _, more := zp.Next(); more; _, more = zp.Next() {
+					n++
+					if n > 5 {
+						break
+					}
+				}
+				vAssert(n == 1 && zp.Err() == nil, "single-step-range-yields-one-record")
+			}
 		} else {
 			vAssert(!ok && rr == nil && zp.Err() != nil, "range-beyond-65536-steps-or-malformed-is-rejected")
 		}
